@@ -27,6 +27,7 @@ type FuncContract struct {
 	Requires    []Clause
 	Ensures     []Clause
 	AssumedEnsures []Clause // assumed at call sites, not proved against the body (each one is listed as trusted)
+	BodyEnsures    []Clause // proved against the body (also under safety_only), not part of the summary callers use
 	Modifies    []Expr
 	ModifiesSrc []string
 	LoopInvs    map[int][]Clause
@@ -113,7 +114,7 @@ func newContracts() *Contracts {
 	return &Contracts{Funcs: map[string]*FuncContract{}, SpecFuncs: map[string]*SpecFunc{}, Lemmas: map[string]*Lemma{}, Ghosts: map[string]*GhostVar{}, FuncFields: map[string]string{}, OpaqueTys: map[string]bool{}, NonConsensusMapLoops: map[string]string{}}
 }
 
-var directiveKW = []string{"func", "invoke", "spec", "pred", "lemma", "axiom", "ghost", "requires", "ensures", "modifies", "loop", "panics_never", "may_panic", "inline", "trusted", "uses", "noreturn", "pure", "fresh_result", "funcfield", "sink", "opaque", "maploop", "at", "opaque_calls", "panic_only_when", "stable", "own_panics_never", "alloc_unbounded", "alloc_bound", "assume_pre", "ghost_set", "assume_ensures", "safety_only", "assume_unreachable", "locals"}
+var directiveKW = []string{"func", "invoke", "spec", "pred", "lemma", "axiom", "ghost", "requires", "ensures", "modifies", "loop", "panics_never", "may_panic", "inline", "trusted", "uses", "noreturn", "pure", "fresh_result", "funcfield", "sink", "opaque", "maploop", "at", "opaque_calls", "panic_only_when", "stable", "own_panics_never", "alloc_unbounded", "alloc_bound", "assume_pre", "ghost_set", "assume_ensures", "safety_only", "assume_unreachable", "locals", "body_ensures"}
 
 type directive struct {
 	kw    string
@@ -378,7 +379,7 @@ func (c *Contracts) loadFile(path, pkgPath string, isLib bool) error {
 				return fail(fmt.Errorf("%s outside a func contract", d.kw))
 			}
 			switch d.kw {
-			case "requires", "ensures", "assume_ensures":
+			case "requires", "ensures", "assume_ensures", "body_ensures":
 				label, body := splitLabel(d.rest)
 				e, err := parseExpr(body)
 				if err != nil {
@@ -390,6 +391,8 @@ func (c *Contracts) loadFile(path, pkgPath string, isLib bool) error {
 					curF.Requires = append(curF.Requires, cl)
 				case "ensures":
 					curF.Ensures = append(curF.Ensures, cl)
+				case "body_ensures":
+					curF.BodyEnsures = append(curF.BodyEnsures, cl)
 				default:
 					curF.AssumedEnsures = append(curF.AssumedEnsures, cl)
 				}
